@@ -59,6 +59,8 @@ func (o op) String() string {
 		return fmt.Sprintf("U%d", o.T)
 	case 'G':
 		return "G"
+	case 'R':
+		return "R"
 	case 'A':
 		return fmt.Sprintf("A%d", o.N)
 	case 'S':
@@ -102,6 +104,8 @@ func parseOps(s string) []op {
 			out = append(out, op{K: 'U', T: ints()[0]})
 		case 'G':
 			out = append(out, op{K: 'G'})
+		case 'R':
+			out = append(out, op{K: 'R'})
 		case 'A', 'S':
 			out = append(out, op{K: f[0], N: ints()[0]})
 		default:
@@ -245,7 +249,8 @@ func (t *truth) live() (live map[int]bool, keptRef map[int]bool) {
 }
 
 // the set Delete(x) must remove when AutoGC is on: least set containing x, closed under
-// "untagged stored manifest whose subject (a manifest) was removed" and
+// "untagged stored manifest whose subject (a manifest) was removed and that no surviving
+// node lists (subject links of its own referrers do not count)" and
 // "untagged stored node that had predecessors, all of which were removed".
 func (t *truth) gone(x int) map[int]bool {
 	gone := map[int]bool{x: true}
@@ -256,12 +261,22 @@ func (t *truth) gone(x int) map[int]bool {
 			if gone[i] || !t.stored[i] || t.tagged(i) {
 				continue
 			}
-			if n.Subject >= 0 && gone[n.Subject] && t.g.Nodes[n.Subject].IsManifest() {
-				gone[i] = true
-				changed = true
-				continue
-			}
 			ps := t.preds(i)
+			if n.Subject >= 0 && gone[n.Subject] && t.g.Nodes[n.Subject].IsManifest() {
+				// a referrer goes with its subject unless a surviving node lists it
+				// (links of its own referrers, i.e. subject links, do not hold it)
+				held := false
+				for _, p := range ps {
+					if !gone[p] && t.g.Nodes[p].Subject != i {
+						held = true
+					}
+				}
+				if !held {
+					gone[i] = true
+					changed = true
+					continue
+				}
+			}
 			all := len(ps) > 0
 			for _, p := range ps {
 				if !gone[p] {
@@ -411,7 +426,7 @@ func (w *world) guarded(f func(ctx context.Context) error) (err error, hung bool
 	defer cancel()
 	done := make(chan error, 1)
 	go func() { done <- f(ctx) }()
-	limit := 20 * time.Second
+	limit := 60 * time.Second
 	select {
 	case err = <-done:
 		return err, false
@@ -486,7 +501,9 @@ func toSet(xs []int) map[int]bool {
 	return m
 }
 
-func runCase(g *dag.Graph, ops []op, seed uint64) {
+func runCase(g *dag.Graph, ops []op, seed uint64) { runCaseAttempt(g, ops, seed, 0) }
+
+func runCaseAttempt(g *dag.Graph, ops []op, seed uint64, attempt int) {
 	id := run.NewID()
 	rep := replayCase{Graph: g.Encode(), Ops: opsString(ops)}
 	fail := func(sig, msg string) {
@@ -582,6 +599,18 @@ func runCase(g *dag.Graph, ops []op, seed uint64) {
 			expStrays[o.N] = true
 			everStray[o.N] = true
 			kind = "stray"
+		case 'R':
+			// reopen: a new Store on the same directory; everything observable must be as before
+			// (generated right after GC only); AutoGC is the default again
+			ns, nerr := oci.New(root)
+			if nerr != nil {
+				err = nerr
+			} else {
+				store = ns
+				w.store = ns
+			}
+			tr.autogc = true
+			kind = "reopen"
 		case 'D':
 			err, hung = w.guarded(func(c context.Context) error { return store.Delete(c, g.Nodes[o.N].Desc) })
 			kind = "delete"
@@ -629,9 +658,18 @@ func runCase(g *dag.Graph, ops []op, seed uint64) {
 		}
 		run.Count("op:" + kind)
 		if hung {
+			// a hang must reproduce on a fresh store; a one-off stall of the (shared, loaded)
+			// machine beyond the watchdog is not a finding: the case is run again from scratch
+			if _, again := execOnly(g, ops[:oi+1]); !again {
+				run.Count("watchdog-stall")
+				if attempt < 2 {
+					runCaseAttempt(g, ops, seed, attempt+1)
+				}
+				return
+			}
 			hangs++
 			out = append(out, o.String()+"=hang")
-			fail(kind+"-hang", fmt.Sprintf("op %d (%s) did not return within the watchdog", oi, o))
+			fail(kind+"-hang", fmt.Sprintf("op %d (%s) did not return within the watchdog (reproduced on a fresh store)", oi, o))
 			failed = true
 			break
 		}
@@ -703,21 +741,22 @@ func runCase(g *dag.Graph, ops []op, seed uint64) {
 		if failed {
 			continue // the reference state is no longer aligned with the store
 		}
-		// known finding (exactly this mechanism): the cascade removed a referrer that a
-		// surviving node still lists.  Only reachable when everything above held, i.e. the
-		// removed set is exactly the least cascade set, so the node went by the referrer rule.
+		// never a node that a surviving node still lists: a removed node (other than the
+		// target) has no surviving predecessor except referrers of its own (a subject link
+		// does not keep the subject alive; a tagged referrer survives its subject)
 		for y := range cascade {
 			if y == o.N {
 				continue
 			}
 			for _, p := range g.Preds(y) {
-				if expStored[p] {
-					run.OracleFail(id, "delete-referrer-still-linked",
-						fmt.Sprintf("op %d (%s): referrer %d was removed although surviving node %d links to it graph=%s ops=%s",
-							oi, o, y, p, strings.Join(g.Describe(), " "), rep.Ops), rep)
-					run.Count("known:referrer-still-linked")
+				if expStored[p] && g.Nodes[p].Subject != y {
+					fail("delete-removed-linked", fmt.Sprintf("op %d (%s): node %d was removed although surviving node %d lists it", oi, o, y, p))
+					failed = true
 				}
 			}
+		}
+		if failed {
+			continue
 		}
 		tr.stored, tr.tags, tr.digidx, tr.strays = expStored, expTags, expDig, expStrays
 	}
@@ -732,6 +771,10 @@ func runCase(g *dag.Graph, ops []op, seed uint64) {
 		}
 		for k := 1; k < reps; k++ {
 			again, hung := execOnly(g, ops)
+			if hung {
+				// reproduce before reporting (see above)
+				again, hung = execOnly(g, ops)
+			}
 			if hung {
 				hangs++
 				fail("order-hang", fmt.Sprintf("repetition %d did not return within the watchdog", k))
@@ -839,6 +882,14 @@ func execOnly(g *dag.Graph, ops []op) (string, bool) {
 			os.MkdirAll(filepath.Dir(p), 0o755)
 			os.WriteFile(p, []byte(fmt.Sprintf("stray %d", o.N)), 0o644)
 			strays[o.N] = true
+		case 'R':
+			ns, nerr := oci.New(root)
+			if nerr != nil {
+				err = nerr
+			} else {
+				store = ns
+				w.store = ns
+			}
 		case 'D':
 			err, hung = w.guarded(func(c context.Context) error { return store.Delete(c, g.Nodes[o.N].Desc) })
 		case 'G':
@@ -886,6 +937,9 @@ func genCase(r *common.Rand) (*dag.Graph, []op) {
 		}
 	}
 	addReferrers(r, g, r.Intn(5))
+	if r.Chance(1, 4) {
+		addHeldCluster(r, g)
+	}
 	var pushable, manifests []int
 	for _, n := range g.Nodes {
 		if n.Foreign() {
@@ -945,6 +999,10 @@ func genCase(r *common.Rand) (*dag.Graph, []op) {
 			ops = append(ops, op{K: 'D', N: n})
 		case x < 50:
 			ops = append(ops, op{K: 'G'})
+			if keepLiveDigests && r.Chance(1, 3) {
+				// GC saves index.json on this tree: reopen and carry on
+				ops = append(ops, op{K: 'R'})
+			}
 		case x < 65:
 			if len(taggable) == 0 {
 				continue
@@ -962,8 +1020,84 @@ func genCase(r *common.Rand) (*dag.Graph, []op) {
 	}
 	if r.Chance(1, 2) {
 		ops = append(ops, op{K: 'G'})
+		if keepLiveDigests && r.Chance(1, 3) {
+			ops = append(ops, op{K: 'R'})
+		}
 	}
 	return g, ops
+}
+
+// appendManifest adds an image manifest (config = blob cfg) or an index (listing lists) with an
+// optional subject on top of g and returns its id.
+func appendManifest(g *dag.Graph, index bool, subject int, cfg int, lists []int, note string) int {
+	id := len(g.Nodes)
+	nd := &dag.Node{ID: id, Subject: subject, TwinOf: -1}
+	var subj *ocispec.Descriptor
+	if subject >= 0 {
+		d := g.Nodes[subject].Desc
+		subj = &d
+		nd.Succ = append(nd.Succ, subject)
+	}
+	ann := map[string]string{"verif.extra": note + strconv.Itoa(id)}
+	var body []byte
+	var mt string
+	if index {
+		nd.Kind, mt = dag.KIndex, ocispec.MediaTypeImageIndex
+		var ix ocispec.Index
+		ix.SchemaVersion, ix.MediaType, ix.Subject, ix.Annotations = 2, mt, subj, ann
+		ix.Manifests = []ocispec.Descriptor{}
+		for _, m := range lists {
+			ix.Manifests = append(ix.Manifests, g.Nodes[m].Desc)
+			nd.Succ = append(nd.Succ, m)
+		}
+		body, _ = json.Marshal(ix)
+	} else {
+		nd.Kind, mt = dag.KImage, ocispec.MediaTypeImageManifest
+		var m ocispec.Manifest
+		m.SchemaVersion, m.MediaType, m.Subject, m.Annotations = 2, mt, subj, ann
+		m.Config = g.Nodes[cfg].Desc
+		m.Layers = []ocispec.Descriptor{}
+		nd.Succ = append(nd.Succ, cfg)
+		body, _ = json.Marshal(m)
+	}
+	nd.Bytes = body
+	nd.Desc = ocispec.Descriptor{MediaType: mt, Digest: digest.FromBytes(body), Size: int64(len(body))}
+	g.Nodes = append(g.Nodes, nd)
+	return id
+}
+
+// addHeldCluster: a referrer X of some manifest m that an index R lists (R is itself a
+// referrer of m, or of nothing) and that has a referrer of its own: X must wait for R and
+// is never "dangling" while its own referrer exists.
+func addHeldCluster(r *common.Rand, g *dag.Graph) {
+	var blobs, manifests []int
+	for _, n := range g.Nodes {
+		if n.Foreign() {
+			continue
+		}
+		if n.IsManifest() {
+			manifests = append(manifests, n.ID)
+		} else {
+			blobs = append(blobs, n.ID)
+		}
+	}
+	if len(manifests) == 0 || len(blobs) == 0 {
+		return
+	}
+	m := common.Pick(r, manifests)
+	c := common.Pick(r, blobs)
+	x := appendManifest(g, false, m, c, nil, "x")
+	rs := -1
+	switch r.Intn(3) {
+	case 0:
+		rs = m
+	case 1:
+		rs = common.Pick(r, manifests)
+	}
+	appendManifest(g, true, rs, 0, []int{x}, "r")
+	if r.Chance(2, 3) {
+		appendManifest(g, false, x, c, nil, "s")
+	}
 }
 
 // addReferrers puts k more manifests on top of g: image manifests and indexes whose
@@ -1040,10 +1174,163 @@ func addReferrers(r *common.Rand, g *dag.Graph, k int) {
 	}
 }
 
+// ---------- small-scope exhaustive enumeration (thorough tier) ----------
+
+// shape of one manifest of an enumerated graph: image (config = blob 0) or index (listing
+// one or two earlier manifests), optional subject among the earlier manifests.
+type mshape struct {
+	index   bool
+	subject int   // node id or -1
+	lists   []int // index only
+}
+
+func buildSmall(shapes []mshape) *dag.Graph {
+	g := &dag.Graph{}
+	blob := []byte("small-scope-blob")
+	g.Nodes = append(g.Nodes, &dag.Node{ID: 0, Kind: dag.KConfig, Bytes: blob, Subject: -1, TwinOf: -1,
+		Desc: ocispec.Descriptor{MediaType: ocispec.MediaTypeImageConfig, Digest: digest.FromBytes(blob), Size: int64(len(blob))}})
+	for _, sh := range shapes {
+		id := len(g.Nodes)
+		nd := &dag.Node{ID: id, Subject: sh.subject, TwinOf: -1}
+		var subj *ocispec.Descriptor
+		if sh.subject >= 0 {
+			d := g.Nodes[sh.subject].Desc
+			subj = &d
+			nd.Succ = append(nd.Succ, sh.subject)
+		}
+		var body []byte
+		var mt string
+		ann := map[string]string{"verif.small": strconv.Itoa(id)}
+		if sh.index {
+			nd.Kind, mt = dag.KIndex, ocispec.MediaTypeImageIndex
+			var ix ocispec.Index
+			ix.SchemaVersion, ix.MediaType, ix.Subject, ix.Annotations = 2, mt, subj, ann
+			ix.Manifests = []ocispec.Descriptor{}
+			for _, m := range sh.lists {
+				ix.Manifests = append(ix.Manifests, g.Nodes[m].Desc)
+				nd.Succ = append(nd.Succ, m)
+			}
+			body, _ = json.Marshal(ix)
+		} else {
+			nd.Kind, mt = dag.KImage, ocispec.MediaTypeImageManifest
+			var m ocispec.Manifest
+			m.SchemaVersion, m.MediaType, m.Subject, m.Annotations = 2, mt, subj, ann
+			m.Config = g.Nodes[0].Desc
+			m.Layers = []ocispec.Descriptor{}
+			nd.Succ = append(nd.Succ, 0)
+			body, _ = json.Marshal(m)
+		}
+		nd.Bytes = body
+		nd.Desc = ocispec.Descriptor{MediaType: mt, Digest: digest.FromBytes(body), Size: int64(len(body))}
+		g.Nodes = append(g.Nodes, nd)
+	}
+	return g
+}
+
+// every shape the next manifest can take on top of k existing nodes (node 0 is the blob)
+func nextShapes(k int) []mshape {
+	var out []mshape
+	subjects := []int{-1}
+	for m := 1; m < k; m++ {
+		subjects = append(subjects, m)
+	}
+	for _, sj := range subjects {
+		out = append(out, mshape{subject: sj})
+	}
+	for a := 1; a < k; a++ {
+		for _, sj := range subjects {
+			out = append(out, mshape{index: true, subject: sj, lists: []int{a}})
+		}
+		for b := a + 1; b < k; b++ {
+			for _, sj := range subjects {
+				out = append(out, mshape{index: true, subject: sj, lists: []int{a, b}})
+			}
+		}
+	}
+	return out
+}
+
+func enumShapes(manifests int, cur []mshape, visit func([]mshape)) {
+	if len(cur) == manifests {
+		visit(cur)
+		return
+	}
+	for _, sh := range nextShapes(len(cur) + 1) {
+		enumShapes(manifests, append(append([]mshape(nil), cur...), sh), visit)
+	}
+}
+
+// historiesFor: push everything, tag the manifests of the subset (tag i-1 on manifest i),
+// then one of the Delete/GC arrangements.
+func smallHistory(n int, tagMask int, target int, variant int) []op {
+	var ops []op
+	for i := 0; i < n; i++ {
+		ops = append(ops, op{K: 'P', N: i})
+	}
+	for m := 1; m < n; m++ {
+		if tagMask&(1<<(m-1)) != 0 {
+			ops = append(ops, op{K: 'T', N: m, T: m - 1})
+		}
+	}
+	d := op{K: 'D', N: target}
+	gc := op{K: 'G'}
+	switch variant {
+	case 0:
+		ops = append(ops, d)
+	case 1:
+		ops = append(ops, gc, d, gc)
+	case 2:
+		ops = append(ops, d, gc)
+	default:
+		ops = append(ops, op{K: 'A', N: 0}, d, gc)
+	}
+	return ops
+}
+
+// exhaustive: all graphs of a blob and up to 3 manifests x all tag subsets x every delete
+// target x 4 Delete/GC arrangements; for 4 manifests every graph with a PRNG-chosen sample
+// of 8 (tags, target, arrangement) combinations.
+func exhaustive() {
+	saved := repeats
+	repeats = 1
+	defer func() { repeats = saved }()
+	for manifests := 1; manifests <= 4 && hangs < 2; manifests++ {
+		enumShapes(manifests, nil, func(shapes []mshape) {
+			if hangs >= 2 {
+				return
+			}
+			g := buildSmall(shapes)
+			n := len(g.Nodes)
+			run.Count(fmt.Sprintf("exhaustive:graphs-%d", n))
+			if manifests <= 3 {
+				for mask := 0; mask < 1<<manifests; mask++ {
+					for target := 0; target < n; target++ {
+						for v := 0; v < 4; v++ {
+							runCase(g, smallHistory(n, mask, target, v), 0)
+							run.Count("exhaustive:histories")
+						}
+					}
+				}
+				return
+			}
+			for k := 0; k < 8; k++ {
+				runCase(g, smallHistory(n, run.Rand.Intn(1<<manifests), run.Rand.Intn(n), run.Rand.Intn(4)), 0)
+				run.Count("exhaustive:histories")
+			}
+		})
+	}
+}
+
 func main() {
 	run = common.Start("C09")
 	run.Rule = "distinct (graph, history) pairs in which a Delete cascaded beyond its target or a GC removed at least one blob"
-	keepLiveDigests = probeKeepLiveDigests()
+	// (a stalled probe must not flip the answer: two equal answers in a row)
+	for a, b := probeKeepLiveDigests(), probeKeepLiveDigests(); ; a, b = b, probeKeepLiveDigests() {
+		if a == b {
+			keepLiveDigests = a
+			break
+		}
+	}
 	run.Extra["gc_keeps_live_digest_refs"] = keepLiveDigests
 	if run.Replay != "" {
 		for _, c := range common.ReadReplay(run.Replay) {
@@ -1063,7 +1350,13 @@ func main() {
 		return
 	}
 	repeats = run.Scale(2, 3)
+	if run.Thorough() {
+		exhaustive()
+	}
 	n := run.Scale(1600, 20000)
+	if os.Getenv("C09_ONLY_EXHAUSTIVE") != "" { // manual testing aid
+		n = 0
+	}
 	for i := 0; i < n && hangs < 2; i++ {
 		cs := run.Rand.U64()
 		g, ops := genCase(common.NewRand(cs))
